@@ -10,10 +10,12 @@ namespace Holpy.C05
 
 /-! ### which steps are trusted (regenerated from the sources on every run, Gen.lean) -/
 
-/-- trusted arithmetic macros whose `eval` is modelled in Model.lean -/
-def modelled : List String := Macro.all.map Macro.name
+/-- trusted arithmetic macros whose `eval` is modelled: Model.lean (one `_sound` theorem each in this
+file), and `real_norm` in NormModel.lean (`real_norm_macro_sound/complete` in PropsNorm.lean, on top of
+the polynomial layer proved for C10) -/
+def modelled : List String := Macro.all.map Macro.name ++ ["real_norm"]
 /-- trusted arithmetic macros judged by the harness oracle only (no Lean model of their body) -/
-def oracleOnly : List String := ["real_norm", "real_eq_comparison"]
+def oracleOnly : List String := ["real_eq_comparison"]
 /-- trusted bridges to external solvers / other provers: properties C06, C16, C18 -/
 def bridges : List String := ["z3", "sympy", "simplex_macro", "integer_simplex", "verit_imp_conj"]
 
